@@ -575,7 +575,7 @@ func (c *FnCtx) applyPureExtra(st *State, full string, sig *types.Signature, rec
 // applyContract replaces a call by the callee's contract.
 func (c *FnCtx) applyContract(st *State, v ssa.Value, callee *ssa.Function, sp *FuncSpec, args []*Val, ins ssa.Instruction) {
 	pre := st.clone()
-	env := &evalEnv{vars: map[string]*Val{}, st: st, old: pre, pkg: callee.Pkg.Pkg}
+	env := &evalEnv{vars: map[string]*Val{}, st: st, old: pre, pkg: callee.Pkg.Pkg, callee: true}
 	ptypes := []types.Type{}
 	for _, p := range callee.Params {
 		ptypes = append(ptypes, p.Type())
